@@ -79,6 +79,17 @@ CHECKS.update({
    note=TRACE_NOTE),
 })
 
+CHECKS.update({
+ "C16": dict(engine="c16", category="model_checking", design_ref="§8 C16",
+   technique="TLA+ model of one RPC server connection (spec/Rpc.tla) checked exhaustively by TLC + TLA+ trace validation (spec/TraceRpc.tla) of recorded executions of the real RPCServerConnection",
+   text="Rpc.tla (3 calls; every call kind incl. unknown/hidden procedures, bad arguments, garbage, oversize header, close sentinel; every fragmentation into header/body units; every completion order; EOF at every unit boundary) is model checked exhaustively for at-most/exactly-one reply, own call id, error class, exposure, applied-despite-disconnect and server survival. The real rpc.RPCServerConnection is then driven over a hand-fed StreamReader along seeded scenarios from the same space with byte-level cuts, and every recorded execution must be a behaviour of Rpc.tla (silent parse/teardown steps allowed) with all invariants evaluated in every state; replies are classified with the real client decoder.",
+   note="Trusted base: TLC 1.8; the driver in checks/c16.py (fed StreamReader, recording writer, idle-hook loop). Client classes (SocketAsyncRPCClient/SocketSyncRPCClient) are exercised only through _decode_response; several simultaneous connections are not modelled."),
+ "C18": dict(engine="c18", category="model_checking", design_ref="§8 C18",
+   technique="TLA+ definition of Under(d, p) on code-point sequences (spec/Prefix.tla) enumerated by TLC over an adversarial label universe; expected selections replayed into every selection site of the real code",
+   text="TLC enumerates directories and stored labels over an alphabet with case pairs, %, _, backslash, [, *, ?, '.', '0' (the byte after '/'), and non-ASCII, evaluates the specification's Under and emits the expected selection for each directory; the harness stores the labels in real workflow databases and runs every selection site (static-tree ownership and hand-over, directory targets in the scheduler, removed-directory reaction, glob-match justification, stepup clean DIR) through its public entry point, comparing the selected set with the specification's.",
+   note="Trusted base: TLC 1.8 evaluating spec/Prefix.tla; checks/c18.py which maps each selection site to an observable set."),
+})
+
 PENDING = ["C01","C02","C04","C05","C06","C07","C11","C13","C14","C16","C17","C18","C20"]
 
 def main():
@@ -112,6 +123,8 @@ def main():
             {"name": "watch", "path": "checks/watch.py", "serves_properties": ["C14"], "kind_free_text": "real Watcher + inotify vs restart on a snapshot, compared by TLC"},
             {"name": "crash", "path": "checks/crash.py", "serves_properties": ["C05"],
              "kind_free_text": "snapshot-based crash injection at every commit / step fs action / cleanup removal of Layer B executions"},
+            {"name": "c16", "path": "checks/c16.py", "serves_properties": ["C16"], "kind_free_text": "Rpc.tla exhaustive model check + trace validation of the real RPCServerConnection"},
+            {"name": "c18", "path": "checks/c18.py", "serves_properties": ["C18"], "kind_free_text": "Prefix.tla vectors replayed into every directory-selection site of the real code"},
             {"name": "history", "path": "checks/history.py", "serves_properties": sorted(p for p, c in CHECKS.items() if c["engine"] == "history"),
              "kind_free_text": "Layer B histories; final states of related executions compared by TLC through spec/RelCheck.tla"},
         ],
